@@ -1,3 +1,617 @@
 import VncModel.Client
+import VncProofs.C02
+import VncProofs.C19
+/-!
+# C06 — A screen capture is a complete, current, whole-desktop snapshot
+# C07 — expect completes exactly when the screen matches, and keeps polling until then
+
+Model: VncModel/Client.lean (`startCmd` for capture / expect, `onCommit`, `expectCompare`) on top of the protocol
+machine (VncModel/Rfb.lean: `commit` is emitted only when an update is complete) and the canvas.
+-/
 namespace Vnc
+
+def Act.isSave : Act → Bool
+  | .save .. => true
+  | _ => false
+
+/-! ## C06 -/
+
+/-! ### helpers: `requestAll` (never let the kernel evaluate `packH` on a symbolic size) -/
+
+def reqG (inc : Bool) (x y w h : Int) : List Act :=
+  requestAll.match_1 (fun _ => List Act) (wUpdateRequest inc x y w h) (fun b => [Act.write b]) (fun _ => [])
+
+theorem requestAll_reqG (core : Core) (inc : Bool) : requestAll core inc = reqG inc 0 0 core.width core.height :=
+  Eq.refl (requestAll core inc)
+
+theorem reqG_some (inc : Bool) (x y w h : Int) (b : Bytes)
+    (hb : wUpdateRequest inc x y w h = some b) : reqG inc x y w h = [.write b] := by
+  unfold reqG
+  rw [hb]
+
+theorem reqG_none (inc : Bool) (x y w h : Int) 
+    (hb : wUpdateRequest inc x y w h = none) : reqG inc x y w h = [] := by
+  unfold reqG
+  rw [hb]
+
+theorem requestAll_eq (core : Core) (inc : Bool) (hw : core.width < 65536) (hh : core.height < 65536) :
+    requestAll core inc = [.write ([3, if inc then 1 else 0, 0, 0, 0, 0] ++ enc16 core.width ++ enc16 core.height)] := by
+  have h : wUpdateRequest inc 0 0 core.width core.height = _ :=
+    wUpdateRequest_nat inc 0 0 core.width core.height (by omega) (by omega) hw hh
+  rw [requestAll_reqG, reqG_some inc _ _ _ _ _ h]
+  cases inc <;> rfl
+
+theorem requestAll_write (core : Core) (inc : Bool) : ∀ act ∈ requestAll core inc, ∃ b, act = .write b := by
+  intro act h
+  rw [requestAll_reqG] at h
+  cases ho : wUpdateRequest inc 0 0 core.width core.height with
+  | some b => rw [reqG_some _ _ _ _ _ b ho] at h; exact ⟨b, by simpa using h⟩
+  | none => rw [reqG_none _ _ _ _ _ ho] at h; simp at h
+
+theorem requestAll_nosave (core : Core) (inc : Bool) : ∀ act ∈ requestAll core inc, act.isSave = false := by
+  intro act h
+  obtain ⟨b, rfl⟩ := requestAll_write core inc act h
+  rfl
+
+theorem keyActs_write (a : App) (op : KeyOp) (k : Word) (w : List Act) (h : keyActs a op k = some w) :
+    ∀ act ∈ w, act.isSave = false := by
+  simp only [keyActs, Option.map_eq_some_iff] at h
+  obtain ⟨ws, _, rfl⟩ := h
+  intro act hact
+  simp only [List.mem_map] at hact
+  obtain ⟨b, _, rfl⟩ := hact
+  rfl
+
+theorem ptrActs_write (a : App) (op : PtrOp) (a' : App) (w : List Act) (h : ptrActs a op = some (a', w)) :
+    ∀ act ∈ w, act.isSave = false := by
+  simp only [ptrActs, Option.map_eq_some_iff] at h
+  obtain ⟨ws, _, h⟩ := h
+  injection h with _ h
+  subst h
+  intro act hact
+  simp only [List.mem_map] at hact
+  obtain ⟨b, _, rfl⟩ := hact
+  rfl
+
+theorem startCmd_captureScreen (a : App) (core : Core) (screen : Option Img) (f : Word) :
+    startCmd a core screen (.captureScreen f) =
+      ({ a with waiter := some (.capture f none) }, requestAll core a.env.incremental, .commit) := rfl
+theorem startCmd_captureRegion (a : App) (core : Core) (screen : Option Img) (f : Word) (x y wd h : Int) :
+    startCmd a core screen (.captureRegion f x y wd h) =
+    ({ a with waiter := some (.capture f (some (x, y, x + wd, y + h))) }, requestAll core false, .commit) := rfl
+theorem startCmd_expectScreen (a : App) (core : Core) (screen : Option Img) (f rms : Word) :
+    startCmd a core screen (.expectScreen f rms) =
+    match a.env.image f with
+    | none => (a, [], .fail "os")
+    | some (wd, h, hist) =>
+      let r := expectCompare a core screen (0, 0, wd, h) rms hist
+      (r.1, r.2.1, if r.2.2 then .cont else .commit) := rfl
+theorem startCmd_expectRegion (a : App) (core : Core) (screen : Option Img) (f rms : Word) (x y : Int) :
+    startCmd a core screen (.expectRegion f x y rms) =
+    match a.env.image f with
+    | none => (a, [], .fail "os")
+    | some (wd, h, hist) =>
+      let r := expectCompare a core screen (x, y, x + wd, y + h) rms hist
+      (r.1, r.2.1, if r.2.2 then .cont else .commit) := rfl
+
+def matchedB (a : App) (screen : Option Img) (box : Int × Int × Int × Int) (rms : Word) (expected : List Nat) : Bool :=
+  match screen with
+  | none => false
+  | some s =>
+    (histogram (s.crop box.1 box.2.1 box.2.2.1 box.2.2.2)).length == expected.length &&
+      a.env.within rms (sqDiff (histogram (s.crop box.1 box.2.1 box.2.2.1 box.2.2.2)) expected)
+        (histogram (s.crop box.1 box.2.1 box.2.2.1 box.2.2.2)).length
+
+theorem expectCompare_eq (a : App) (core : Core) (screen : Option Img) (box : Int × Int × Int × Int) (rms : Word)
+    (expected : List Nat) : expectCompare a core screen box rms expected =
+      if matchedB a screen box rms expected then (a, [], true)
+      else ({ a with waiter := some (.expect box rms expected) }, requestAll core screen.isSome, false) := by
+  cases screen <;> rfl
+
+theorem expectCompare_true (a : App) (core : Core) (screen : Option Img) (box : Int × Int × Int × Int) (rms : Word)
+    (expected : List Nat) (h : matchedB a screen box rms expected = true) :
+    expectCompare a core screen box rms expected = (a, [], true) := by
+  rw [expectCompare_eq, if_pos h]
+
+theorem expectCompare_false (a : App) (core : Core) (screen : Option Img) (box : Int × Int × Int × Int) (rms : Word)
+    (expected : List Nat) (h : matchedB a screen box rms expected = false) :
+    expectCompare a core screen box rms expected =
+      ({ a with waiter := some (.expect box rms expected) }, requestAll core screen.isSome, false) := by
+  rw [expectCompare_eq, if_neg (by rw [h]; exact Bool.false_ne_true)]
+
+theorem expectCompare_nosave (a : App) (core : Core) (screen : Option Img) (box : Int × Int × Int × Int) (rms : Word)
+    (expected : List Nat) : ∀ act ∈ (expectCompare a core screen box rms expected).2.1, act.isSave = false := by
+  cases h : matchedB a screen box rms expected
+  · rw [expectCompare_false _ _ _ _ _ _ h]; dsimp only; exact requestAll_nosave _ _
+  · rw [expectCompare_true _ _ _ _ _ _ h]; intro act h; cases h
+
+
+/-- a capture asks for the whole desktop *as most recently announced* (`core.width/height` are set by ServerInit and
+    by every DesktopSize pseudo-rectangle: `C02_desktop_geometry`), writes nothing else, and waits for a commit -/
+theorem C06_request_geometry (a : App) (core : Core) (screen : Option Img) (f : Word)
+    (hw : core.width < 65536) (hh : core.height < 65536) :
+    let r := startCmd a core screen (.captureScreen f)
+    r.2.1 = [.write ([3, if a.env.incremental then 1 else 0, 0, 0, 0, 0] ++ enc16 core.width ++ enc16 core.height)] ∧
+    r.2.2 = .commit ∧ r.1.waiter.isSome = true := by
+  rw [startCmd_captureScreen]
+  dsimp only
+  exact ⟨requestAll_eq core _ hw hh, rfl, rfl⟩
+
+theorem C06_region_request (a : App) (core : Core) (screen : Option Img) (f : Word) (x y w h : Int)
+    (hw : core.width < 65536) (hh : core.height < 65536) :
+    (startCmd a core screen (.captureRegion f x y w h)).2.1 =
+      [.write ([3, 0, 0, 0, 0, 0] ++ enc16 core.width ++ enc16 core.height)] := by
+  rw [startCmd_captureRegion]
+  dsimp only
+  exact requestAll_eq core _ hw hh
+
+/-- nothing but a commit ever writes an image: starting a command never saves -/
+theorem C06_no_save_on_start (a : App) (core : Core) (screen : Option Img) (c : Cmd) :
+    ∀ act ∈ (startCmd a core screen c).2.1, act.isSave = false := by
+  cases c
+  case captureScreen f => rw [startCmd_captureScreen]; dsimp only; exact requestAll_nosave _ _
+  case captureRegion f x y w h => rw [startCmd_captureRegion]; dsimp only; exact requestAll_nosave _ _
+  case pauseArg d => intro act h; cases h
+  case pauseDelay => intro act h; cases h
+  case paste t =>
+    delta startCmd
+    dsimp only
+    split
+    · intro act h
+      simp only [List.mem_singleton] at h
+      subst h; rfl
+    · intro act h; cases h
+  case expectScreen f rms =>
+    rw [startCmd_expectScreen]
+    split
+    · intro act h; cases h
+    · exact expectCompare_nosave _ _ _ _ _ _
+  case expectRegion f x y rms =>
+    rw [startCmd_expectRegion]
+    split
+    · intro act h; cases h
+    · exact expectCompare_nosave _ _ _ _ _ _
+  case mouseDrag x y =>
+    delta startCmd
+    dsimp only
+    split
+    · split
+      · rename_i a' w hw; exact ptrActs_write _ _ _ _ hw
+      · intro act h; cases h
+    · split
+      · intro act h; cases h
+      · rename_i a' w hw; exact ptrActs_write _ _ _ _ hw
+  case keyPress k =>
+    delta startCmd
+    dsimp only
+    split
+    · rename_i w hw; exact keyActs_write _ _ _ _ hw
+    · intro act h; cases h
+  case keyDown k =>
+    delta startCmd
+    dsimp only
+    split
+    · rename_i w hw; exact keyActs_write _ _ _ _ hw
+    · intro act h; cases h
+  case keyUp k =>
+    delta startCmd
+    dsimp only
+    split
+    · rename_i w hw; exact keyActs_write _ _ _ _ hw
+    · intro act h; cases h
+  case mouseMove x y =>
+    delta startCmd
+    dsimp only
+    split
+    · rename_i a' w hw; exact ptrActs_write _ _ _ _ hw
+    · intro act h; cases h
+  all_goals
+    delta startCmd
+    dsimp only
+    split
+    · intro act h; cases h
+    · split
+      · rename_i a' w hw; exact ptrActs_write _ _ _ _ hw
+      · intro act h; cases h
+
+
+/-! ### helpers: which handler outputs can contain a commit -/
+
+def notCommit : Out → Bool
+  | .commit _ => false
+  | _ => true
+
+/-- a commit in the outputs means the machine went to the `connection` state -/
+def CG (r : RSt × List Out) : Prop := ∀ rects, Out.commit rects ∈ r.2 → r.1.ph = .connection
+
+theorem cg_of_none (r : RSt × List Out) (h : ∀ o ∈ r.2, notCommit o = true) : CG r := by
+  intro rects hm
+  have := h _ hm
+  cases this
+
+theorem cg_ite (p : Prop) [Decidable p] (x y : RSt × List Out) (hx : CG x) (hy : CG y) : CG (if p then x else y) := by
+  split <;> assumption
+
+theorem cg_go (c : Core) (ph : Phase) (outs : List Out) (h : ∀ o ∈ outs, notCommit o = true) : CG (go c ph outs) :=
+  cg_of_none _ h
+
+theorem cg_dead (c : Core) (outs : List Out) (h : ∀ o ∈ outs, notCommit o = true) : CG (dead c outs) :=
+  cg_of_none _ h
+
+theorem cg_clientInit (c : Core) (pre : List Out) (h : ∀ o ∈ pre, notCommit o = true) : CG (clientInit c pre) := by
+  apply cg_of_none
+  intro o ho
+  simp only [clientInit, go, List.mem_append, List.mem_singleton] at ho
+  rcases ho with ho | rfl
+  · exact h o ho
+  · rfl
+
+theorem cg_doConnection (c : Core) (pre : List Out) (h : ∀ o ∈ pre, notCommit o = true) : CG (doConnection c pre) := by
+  unfold doConnection
+  split
+  · exact cg_go _ _ _ h
+  · split
+    · intro rects _; rfl
+    · exact cg_go _ _ _ h
+
+theorem cg_nextHextile_aux (c : Core) (bg fg : Option Bytes) (x y w h : Nat) (p : Nat × Nat)
+    (pre : List Out) (hp : ∀ o ∈ pre, notCommit o = true) :
+    CG (if p.2 ≥ y + h then doConnection c pre else go c (.hextile bg fg x y w h p.1 p.2) pre) := by
+  split
+  · exact cg_doConnection c pre hp
+  · exact cg_go _ _ _ hp
+
+theorem cg_nextHextile (c : Core) (bg fg : Option Bytes) (x y w h : Nat) (t : Option (Nat × Nat)) (pre : List Out)
+    (hp : ∀ o ∈ pre, notCommit o = true) : CG (nextHextile c bg fg x y w h t pre) := by
+  unfold nextHextile
+  exact cg_nextHextile_aux c bg fg x y w h _ pre hp
+
+theorem nc_hexColoured_aux (bypp tx ty : Nat) (l : List Bytes) : ∀ (acc : List Out × Option Bytes),
+    (∀ o ∈ acc.1, notCommit o = true) →
+    ∀ o ∈ (l.foldl (fun (acc : List Out × Option Bytes) r =>
+      let col := r.take bypp
+      let xy := (r.getD bypp 0).toNat
+      let wh := (r.getD (bypp + 1) 0).toNat
+      (acc.1 ++ [Out.fill (tx + xy / 16) (ty + xy % 16) (wh / 16 + 1) (wh % 16 + 1) (some col)], some col)) acc).1,
+      notCommit o = true := by
+  induction l with
+  | nil => intro acc h; simpa using h
+  | cons r l ih =>
+    intro acc h
+    rw [List.foldl_cons]
+    apply ih
+    intro o ho
+    simp only [List.mem_append, List.mem_singleton] at ho
+    rcases ho with ho | rfl
+    · exact h o ho
+    · rfl
+
+theorem nc_hexColoured (bypp tx ty : Nat) (b : Bytes) (fg : Option Bytes) :
+    ∀ o ∈ (hexColoured bypp tx ty b fg).1, notCommit o = true := by
+  unfold hexColoured
+  exact nc_hexColoured_aux bypp tx ty _ _ (by simp)
+
+theorem nc_zTiles (cp : Nat) (pad : Bool) (x y w h : Nat) : ∀ (fuel : Nat) (tx ty : Int) (d : Bytes) (outs : List Out),
+    (∀ o ∈ outs, notCommit o = true) → ∀ o ∈ (zTiles cp pad x y w h fuel tx ty d outs).1, notCommit o = true := by
+  intro fuel
+  induction fuel with
+  | zero => intro tx ty d outs hall; simpa [zTiles] using hall
+  | succ fuel ih =>
+    intro tx ty d outs hall
+    cases d with
+    | nil => simpa [zTiles] using hall
+    | cons sub d0 =>
+      simp only [zTiles]
+      split
+      · exact hall
+      · rename_i o d' heq
+        apply ih
+        intro p hp
+        rcases List.mem_append.1 hp with hp | hp
+        · exact hall p hp
+        · generalize (if (x : Int) + w - tx < 64 then (x : Int) + w - tx else 64) = tw at heq
+          generalize (if (y : Int) + h - ty < 64 then (y : Int) + h - ty else 64) = th at heq
+          repeat' split at heq
+          all_goals try simp only [bind, Except.bind, pure, Except.pure] at heq
+          all_goals repeat' split at heq
+          all_goals first
+            | (cases heq; done)
+            | (cases heq; simp only [List.mem_singleton] at hp; subst hp; rfl)
+
+theorem nc_zTiles_eq {cp : Nat} {pad : Bool} {x y w h fuel : Nat} {tx ty : Int} {d : Bytes} {outs : List Out}
+    {e : Option String} (heq : zTiles cp pad x y w h fuel tx ty d [] = (outs, e)) : ∀ o ∈ outs, notCommit o = true := by
+  have := nc_zTiles cp pad x y w h fuel tx ty d [] (by simp)
+  rw [heq] at this
+  exact this
+
+theorem nc_rreFills (bypp x y : Nat) (b : Bytes) : ∀ o ∈ rreFills bypp x y b, notCommit o = true := by
+  intro o ho
+  simp only [rreFills, List.mem_map] at ho
+  obtain ⟨r, _, rfl⟩ := ho
+  rfl
+
+theorem nc_correFills (bypp x y : Nat) (b : Bytes) : ∀ o ∈ correFills bypp x y b, notCommit o = true := by
+  intro o ho
+  simp only [correFills, List.mem_map] at ho
+  obtain ⟨r, _, rfl⟩ := ho
+  rfl
+
+theorem nc_hexFG (x y : Nat) (b : Bytes) (fg : Option Bytes) : ∀ o ∈ hexFG x y b fg, notCommit o = true := by
+  intro o ho
+  simp only [hexFG, List.mem_map] at ho
+  obtain ⟨r, _, rfl⟩ := ho
+  rfl
+
+theorem stepCore_cg (c : Core) (ph : Phase) (b : Bytes) : CG (stepCore ⟨c, ph⟩ b) := by
+  cases ph
+  case rectangle =>
+    simp -zeta only [stepCore]
+    extract_lets c0 bypp x y w h enc c1
+    repeat' with_reducible apply cg_ite
+    all_goals first
+      | (apply cg_go; simp [notCommit]; done)
+      | (apply cg_dead; simp [notCommit]; done)
+      | (apply cg_doConnection; simp [notCommit]; done)
+      | (apply cg_nextHextile; simp [notCommit]; done)
+  case serverName n =>
+    apply cg_of_none
+    intro o ho
+    simp only [stepCore, go] at ho
+    rcases mem_connectionMade c o ho with rfl | ⟨w, rfl⟩ <;> rfl
+  case vncAuth =>
+    apply cg_of_none
+    intro o ho
+    simp only [stepCore, go, requestPassword] at ho
+    cases hk : c.cfg.kind <;> cases hpw : c.cfg.hasPassword <;> simp [hk, hpw] at ho <;>
+      (try rcases ho with rfl | rfl) <;> (try subst ho) <;> rfl
+  case secTypes n =>
+    simp only [stepCore]
+    split
+    · apply cg_dead; simp [notCommit]
+    · repeat' with_reducible apply cg_ite
+      all_goals first
+        | (apply cg_go; simp [notCommit]; done)
+        | (apply cg_dead; simp [notCommit]; done)
+        | (apply cg_clientInit; simp [notCommit]; done)
+  case zrleData n x y w h =>
+    simp only [stepCore]
+    split
+    · apply cg_dead; simp [notCommit]
+    · apply cg_dead; simp [notCommit]
+    · split
+      · rename_i outs e heq
+        apply cg_dead
+        intro o ho
+        rcases List.mem_append.1 ho with ho | ho
+        · exact nc_zTiles_eq heq o ho
+        · simp at ho; subst ho; rfl
+      · rename_i outs heq
+        apply cg_doConnection
+        exact nc_zTiles_eq heq
+  case hextileColoured =>
+    simp only [stepCore]
+    apply cg_nextHextile
+    exact nc_hexColoured _ _ _ _ _
+  all_goals
+    simp only [stepCore]
+    repeat' with_reducible apply cg_ite
+    all_goals try split
+    all_goals first
+      | (apply cg_go; simp [notCommit]; done)
+      | (apply cg_go; simp [notCommit]; split <;> simp; done)
+      | (apply cg_dead; simp [notCommit]; done)
+      | (apply cg_clientInit; simp [notCommit]; done)
+      | (apply cg_doConnection; simp [notCommit]; done)
+      | (apply cg_nextHextile; simp [notCommit]; done)
+      | (apply cg_doConnection; exact nc_rreFills _ _ _ _)
+      | (apply cg_doConnection; exact nc_correFills _ _ _ _)
+      | (apply cg_nextHextile; exact nc_hexFG _ _ _ _)
+
+/-- a commit is only ever produced at the end of a FramebufferUpdate: the step that emits it leaves the machine
+    waiting for the next *message* - never in the middle of an update, however the update is split into chunks -/
+theorem C06_commit_ends_update (s : RSt) (b : Bytes) (rects : List Rect) (h : Out.commit rects ∈ (step s b).2) :
+    (step s b).1.ph = .connection ∨ (step s b).1.ph = .dead := by
+  rcases step_split s b with he | ⟨hd, _⟩
+  · left
+    rw [he] at h ⊢
+    obtain ⟨c, ph⟩ := s
+    exact stepCore_cg c ph b rects h
+  · exact Or.inr hd
+
+/-! ### helpers: the chain never saves -/
+
+theorem nosave_iff (l : List Act) : (∀ act ∈ l, act.isSave = false) ↔ l.filter Act.isSave = [] := by
+  simp [List.filter_eq_nil_iff]
+
+theorem advance_nosave (core : Core) (screen : Option Img) :
+    ∀ (fuel : Nat) (a : App), (advance core screen fuel a).2.filter Act.isSave = [] := by
+  intro fuel
+  induction fuel with
+  | zero => intro a; rfl
+  | succ n ih =>
+    intro a
+    rw [advance.eq_2]
+    split
+    · rfl
+    · rename_i c rest hc
+      dsimp only
+      have hs := (nosave_iff _).1 (C06_no_save_on_start { a with cmds := rest } core screen c)
+      split
+      all_goals simp only [List.filter_append, hs, ih, List.append_nil]
+      all_goals rfl
+
+theorem resume_nosave (core : Core) (screen : Option Img) (a : App) :
+    (resume core screen a).2.filter Act.isSave = [] := by
+  unfold resume
+  dsimp only
+  rw [List.filter_append, advance_nosave]
+  rfl
+
+/-- at the commit the capture writes exactly one image and it equals the client's screen (or the requested region
+    of it) at that moment; the waiter is consumed, so a later commit writes nothing more -/
+theorem C06_saved_is_screen (a : App) (core : Core) (s : Img) (f : Word) (box : Option (Int × Int × Int × Int))
+    (hw : a.waiter = some (.capture f box)) :
+    let r := onCommit core (some s) a
+    let img := match box with | none => s | some (x0, y0, x1, y1) => s.crop x0 y0 x1 y1
+    r.2.head? = some (.save f img.w img.h img.pixels) ∧ (r.2.filter Act.isSave).length = 1 := by
+  unfold onCommit
+  rw [hw]
+  dsimp only
+  split
+  · refine ⟨rfl, ?_⟩
+    rw [List.filter_append, resume_nosave]
+    rfl
+  · exact ⟨rfl, rfl⟩
+
+theorem rowMajor_index {α : Type} (f : Nat → Nat → α) (w : Nat) : ∀ h : Nat,
+    ((List.range h).flatMap fun y => (List.range w).map fun x => f x y).length = w * h ∧
+    ∀ x y, x < w → y < h →
+      ((List.range h).flatMap fun y => (List.range w).map fun x => f x y)[y * w + x]? = some (f x y) := by
+  intro h
+  induction h with
+  | zero => exact ⟨by simp, fun x y _ hy => absurd hy (Nat.not_lt_zero _)⟩
+  | succ h ih =>
+    obtain ⟨hl, hg⟩ := ih
+    rw [List.range_succ, List.flatMap_append]
+    simp only [List.flatMap_cons, List.flatMap_nil, List.append_nil]
+    refine ⟨?_, ?_⟩
+    · rw [List.length_append, hl, List.length_map, List.length_range, Nat.mul_succ]
+    · intro x y hx hy
+      by_cases hyh : y < h
+      · have h1 : (y + 1) * w ≤ h * w := Nat.mul_le_mul_right w hyh
+        rw [Nat.succ_mul] at h1
+        rw [List.getElem?_append_left (by rw [hl, Nat.mul_comm w h]; omega)]
+        exact hg x y hx hyh
+      · have hy' : y = h := by omega
+        subst hy'
+        rw [List.getElem?_append_right (by rw [hl, Nat.mul_comm w y]; omega), hl, Nat.mul_comm w y,
+          Nat.add_sub_cancel_left, List.getElem?_map, List.getElem?_range hx]
+        rfl
+
+theorem C06_pixels_are_screen (s : Img) :
+    s.pixels.length = s.w * s.h ∧ ∀ x y, x < s.w → y < s.h → s.pixels[y * s.w + x]? = some (s.get x y) := by
+  unfold Img.pixels
+  exact rowMajor_index s.get s.w s.h
+
+/-- without a pending capture / expect a commit does nothing -/
+theorem C06_commit_without_waiter (a : App) (core : Core) (screen : Option Img) (h : a.waiter = none) :
+    onCommit core screen a = (a, []) := by
+  unfold onCommit
+  rw [h]
+
+/-! ## C07 -/
+
+/-- the comparison: completes iff a screen exists, the histograms have the same number of bins and the RMS test
+    (`env.within`: `sqrt(Σ (h-e)² / n) ≤ maxrms`) holds; otherwise exactly one update request is written
+    (incremental iff a screen exists) and the wait is re-armed with the same box, tolerance and expected histogram -/
+theorem C07_complete_iff (a : App) (core : Core) (screen : Option Img) (box : Int × Int × Int × Int) (rms : Word)
+    (expected : List Nat) (hw : core.width < 65536) (hh : core.height < 65536) :
+    let r := expectCompare a core screen box rms expected
+    (r.2.2 = true ↔ ∃ s, screen = some s ∧
+        (histogram (s.crop box.1 box.2.1 box.2.2.1 box.2.2.2)).length = expected.length ∧
+        a.env.within rms (sqDiff (histogram (s.crop box.1 box.2.1 box.2.2.1 box.2.2.2)) expected)
+          (histogram (s.crop box.1 box.2.1 box.2.2.1 box.2.2.2)).length = true) ∧
+    (r.2.2 = true → r.2.1 = [] ∧ r.1 = a) ∧
+    (r.2.2 = false → r.2.1 = [.write ([3, if screen.isSome then 1 else 0, 0, 0, 0, 0] ++ enc16 core.width ++ enc16 core.height)] ∧
+        r.1.waiter = some (.expect box rms expected)) := by
+  have hm : matchedB a screen box rms expected = true ↔ ∃ s, screen = some s ∧
+        (histogram (s.crop box.1 box.2.1 box.2.2.1 box.2.2.2)).length = expected.length ∧
+        a.env.within rms (sqDiff (histogram (s.crop box.1 box.2.1 box.2.2.1 box.2.2.2)) expected)
+          (histogram (s.crop box.1 box.2.1 box.2.2.1 box.2.2.2)).length = true := by
+    cases screen with
+    | none => simp [matchedB]
+    | some s => simp [matchedB]
+  cases h : matchedB a screen box rms expected
+  · rw [expectCompare_false _ _ _ _ _ _ h]
+    dsimp only
+    rw [← hm, h]
+    refine ⟨Iff.rfl, fun hc => absurd hc Bool.false_ne_true, fun _ => ⟨?_, rfl⟩⟩
+    exact requestAll_eq core _ hw hh
+  · rw [expectCompare_true _ _ _ _ _ _ h]
+    dsimp only
+    rw [← hm, h]
+    exact ⟨Iff.rfl, fun _ => ⟨rfl, rfl⟩, fun hc => absurd hc.symm Bool.false_ne_true⟩
+
+theorem sqDiff_self_aux (l : List Nat) : ∀ acc : Nat,
+    (List.zipWith (fun (x y : Nat) => (max x y - min x y) ^ 2) l l).foldl (· + ·) acc = acc := by
+  induction l with
+  | nil => intro acc; rfl
+  | cons x l ih =>
+    intro acc
+    rw [List.zipWith_cons_cons, List.foldl_cons, ih]
+    simp
+
+theorem sqDiff_self (l : List Nat) : sqDiff l l = 0 := sqDiff_self_aux l 0
+
+/-- a region that is pixel-identical to the awaited image has the same histogram: zero difference -/
+theorem C07_identical (i j : Img) (hw : i.w = j.w) (hh : i.h = j.h) (hp : ∀ x y, x < i.w → y < i.h → i.get x y = j.get x y) :
+    histogram i = histogram j ∧ sqDiff (histogram i) (histogram j) = 0 := by
+  have hpx : i.pixels = j.pixels := by
+    unfold Img.pixels
+    rw [← hw, ← hh]
+    rw [List.flatMap_def, List.flatMap_def]
+    congr 1
+    apply List.map_congr_left
+    intro y hy
+    apply List.map_congr_left
+    intro x hx
+    exact hp x y (List.mem_range.1 hx) (List.mem_range.1 hy)
+  have hh' : histogram i = histogram j := by
+    unfold histogram
+    rw [hpx]
+  exact ⟨hh', by rw [hh']; exact sqDiff_self _⟩
+
+theorem C07_histogram_length (i : Img) : (histogram i).length = 768 := by
+  simp [histogram]
+
+/-- the region compared is the box at the given offset having the image's size -/
+theorem C07_box (a : App) (core : Core) (screen : Option Img) (f : Word) (x y : Int) (rms : Word) (w h : Nat) (hist : List Nat)
+    (hi : a.env.image f = some (w, h, hist)) :
+    startCmd a core screen (.expectRegion f x y rms) =
+      (let r := expectCompare a core screen (x, y, x + w, y + h) rms hist
+       (r.1, r.2.1, if r.2.2 then .cont else .commit)) ∧
+    startCmd a core screen (.expectScreen f rms) =
+      (let r := expectCompare a core screen (0, 0, (w : Int), (h : Int)) rms hist
+       (r.1, r.2.1, if r.2.2 then .cont else .commit)) := by
+  rw [startCmd_expectRegion, startCmd_expectScreen, hi]
+  exact ⟨rfl, rfl⟩
+
+/-- while the screen does not match, every completed update triggers exactly one further request and the wait goes on;
+    the script does not continue (neither stalls nor completes early) -/
+theorem C07_one_request_per_commit (a : App) (core : Core) (screen : Option Img) (box : Int × Int × Int × Int)
+    (rms : Word) (expected : List Nat) (hwt : a.waiter = some (.expect box rms expected))
+    (hno : (expectCompare { a with waiter := none } core screen box rms expected).2.2 = false)
+    (hw : core.width < 65536) (hh : core.height < 65536) :
+    let r := onCommit core screen a
+    r.2 = [.write ([3, if screen.isSome then 1 else 0, 0, 0, 0, 0] ++ enc16 core.width ++ enc16 core.height)] ∧
+    r.1.waiter = some (.expect box rms expected) ∧ r.1.chain = a.chain ∧ r.1.idx = a.idx := by
+  have hm : matchedB { a with waiter := none } screen box rms expected = false := by
+    cases h : matchedB { a with waiter := none } screen box rms expected
+    · rfl
+    · rw [expectCompare_true _ _ _ _ _ _ h] at hno; cases hno
+  unfold onCommit
+  rw [hwt]
+  dsimp only
+  rw [expectCompare_false _ _ _ _ _ _ hm]
+  rw [if_neg Bool.false_ne_true]
+  dsimp only
+  exact ⟨requestAll_eq core _ hw hh, rfl, rfl, rfl⟩
+
+/-- it never completes early: if a commit makes the waiting script go on, the comparison held at that instant -/
+theorem C07_never_early (a : App) (core : Core) (screen : Option Img) (box : Int × Int × Int × Int)
+    (rms : Word) (expected : List Nat) (hwt : a.waiter = some (.expect box rms expected)) (hc : a.chain = .waitCommit)
+    (h : Act.finish a.idx ∈ (onCommit core screen a).2) :
+    (expectCompare { a with waiter := none } core screen box rms expected).2.2 = true := by
+  have _ := hc
+  cases hm : matchedB { a with waiter := none } screen box rms expected
+  · exfalso
+    unfold onCommit at h
+    rw [hwt] at h
+    dsimp only at h
+    rw [expectCompare_false _ _ _ _ _ _ hm] at h
+    simp only [Bool.false_eq_true, if_false] at h
+    obtain ⟨b, hb⟩ := requestAll_write _ _ _ h
+    cases hb
+  · rw [expectCompare_true _ _ _ _ _ _ hm]
+
 end Vnc
